@@ -95,106 +95,325 @@ def num_leftpad(p, res):
                     par = pm.get(par)
                 if isinstance(par, ast.Subscript) and par.value is not None and isinstance(par.slice, ast.Slice):
                     res.bad(F('NUM-LEFTPAD', f, par, src_of(par), 'the padded numeral is sliced: counters wider than the pad width lose digits'))
-    # RepeaterNumber: width of the pad is max(0, size - len(digits)) and the digits are str(value)
+    # RepeaterNumber: on every path the result is str(V) left-padded with '0' to token.size digits, never truncated
     f = p.func('abbreviation.stringify.RepeaterNumber')
-    rets = [n for n in f.body_nodes() if isinstance(n, ast.Return)]
-    if len(rets) != 1:
-        raise AnalysisError('NUM-LEFTPAD: RepeaterNumber has %d returns' % len(rets))
-    r = inline(p, f, rets[0].value)
-    s = src_of(r)
-    good = s in ("'0' * max(0, token.size - len(str(value))) + str(value)", "str(value).rjust(token.size, '0')", 'str(value).zfill(token.size)')
-    if good:
-        res.ok('RepeaterNumber returns ' + s)
-    else:
-        res.bad(F('NUM-LEFTPAD', f, rets[0], src_of(rets[0].value) + '  ==  ' + s,
-                  "counter must be printed as str(value) left-padded with '0' to token.size digits and never truncated"))
+    n_ok = 0
+    for q, V, how in repeater_number_paths(p, f, res, 'NUM-LEFTPAD'):
+        n_ok += 1
+    if n_ok:
+        res.ok('RepeaterNumber: str(V) left-padded to token.size on %d paths' % n_ok)
     res.require_floor(4)
+
+
+def _padded(ret):
+    """ret == str(V) left-padded with zeros to token.size  ->  ('ok', V) | ('bad', why) | None"""
+    from ..pattern import match_expr
+    for pat in ("'0' * max(0, $w - len(str($v))) + str($v)", "'0' * max($w - len(str($v)), 0) + str($v)", "str($v).rjust($w, '0')", "str($v).zfill($w)"):
+        b = match_expr(pat, ret)
+        if b is not None:
+            if src_of(b['w']) == 'token.size':
+                return ('ok', b['v'])
+            return ('bad', 'the pad width is %s, not the number of $ characters (token.size)' % src_of(b['w']))
+    for pat, why in (("str($v) + '0' * $n", "zeros are appended after the digits: the number's value changes"),
+                     ("str($v).ljust($w, '0')", "zeros are appended after the digits: the number's value changes"),
+                     ("'0' * ($w - len(str($v))) + str($v)", None),
+                     ("$x[$a:]", 'the padded numeral is sliced: counters wider than the pad width lose digits'),
+                     ("$x[:$a]", 'the padded numeral is sliced: counters wider than the pad width lose digits'),
+                     ("str($v)", None)):
+        b = match_expr(pat, ret)
+        if b is not None:
+            if pat == "str($v)":
+                return ('nopad', b['v'])
+            if why is None:
+                return ('ok', b['v']) if src_of(b['w']) == 'token.size' else None     # '0' * negative == '' : same as max(0, ..)
+            return ('bad', why)
+    return None
+
+
+def repeater_number_paths(p, f, res, rname):
+    """yield (path, V, form) for every feasible path of RepeaterNumber whose result is a correctly padded str(V); report the others"""
+    from .. import sympath
+    try:
+        paths = sympath.feasible(sympath.summaries(p, f))
+    except sympath.Unsupported as e:
+        res.undecided('RepeaterNumber', str(e))
+        return
+    if not paths:
+        raise AnalysisError('%s: RepeaterNumber has no path' % rname)
+    for q in paths:
+        if q.ret is None:
+            res.undecided('RepeaterNumber [%s]' % q.cond_str(), 'path does not return a string')
+            continue
+        r = _padded(q.ret)
+        if r is None:
+            res.undecided('RepeaterNumber [%s] returns %s' % (q.cond_str(), src_of(q.ret)), 'result is not recognisably str(V) padded with zeros')
+        elif r[0] == 'bad':
+            if rname == 'NUM-LEFTPAD':
+                res.bad(F(rname, f, f.node, 'return %s' % src_of(q.ret), r[1], details=['when ' + q.cond_str()]))
+        elif r[0] == 'nopad':
+            # unpadded on this path: fine only when the path assumes width <= 1 ... cannot be decided from the text
+            if rname == 'NUM-LEFTPAD':
+                res.undecided('RepeaterNumber [%s] returns %s' % (q.cond_str(), src_of(q.ret)), 'unpadded result on a path whose width condition is not understood')
+        else:
+            yield q, r[1], r[0]
 
 
 # --------------------------------------------------------------- NUM-LINEAR
 @rule('NUM-LINEAR', 'D', 'repeater counter formulas: forward base+i, reverse base+count-i-1, nearest repeater, parent clamp')
 def num_linear(p, res):
     f = p.func('abbreviation.stringify.RepeaterNumber')
-    defs = single_defs(p, f)
-    rep = None
-    for name, v in defs.items():
-        if src_of(inline(p, f, v)) in ('state.repeaters[-1]', 'state.repeaters[len(state.repeaters) - 1]'):
-            rep = name
-    if rep is None:
-        res.bad(F('NUM-LINEAR', f, f.node, 'repeater lookup', 'the counter must come from the innermost repeater state.repeaters[-1]'))
-        return
-    res.ok('%s = state.repeaters[-1]' % rep)
-    # default when there is no repeater
-    first = [n for n in f.node.body if isinstance(n, ast.Assign) and src_of(n.targets[0]) == 'value']
-    if not first or p.try_const(f, first[0].value) != 1:
-        res.bad(F('NUM-LINEAR', f, first[0] if first else f.node, 'value = %s' % (src_of(first[0].value) if first else '?'), 'counter without any repeater is 1'))
-    else:
-        res.ok('value = 1 without repeater')
-    # guard: only read repeaters[-1] when the stack is non-empty
-    guard_ok = False
-    for n in f.body_nodes():
-        if isinstance(n, ast.If) and src_of(inline(p, f, n.test)) in ('len(state.repeaters) - 1 >= 0', 'state.repeaters', 'len(state.repeaters)', 'len(state.repeaters) > 0'):
-            if any(isinstance(x, ast.Assign) and src_of(x.targets[0]) == rep for x in n.body):
-                guard_ok = True
-    if guard_ok:
-        res.ok('repeater read guarded by non-empty stack')
-    else:
-        res.bad(F('NUM-LINEAR', f, f.node, 'guard of %s = state.repeaters[-1]' % rep, 'reading the innermost repeater must be guarded by a non-empty repeater stack'))
-    rev = [n for n in f.body_nodes() if isinstance(n, ast.If) and src_of(n.test) == 'token.reverse']
-    if len(rev) != 1:
-        raise AnalysisError('NUM-LINEAR: no single `if token.reverse` in RepeaterNumber')
+    STACK = 'state.repeaters'
+    TOP = ('state.repeaters[-1]', 'state.repeaters[len(state.repeaters) - 1]')
 
-    def val_of(body):
-        a = [n for n in body if isinstance(n, ast.Assign) and src_of(n.targets[0]) == 'value']
-        return a[-1].value if len(a) == 1 else None
-    want_rev = {'token.base': 1, rep + '.count': 1, rep + '.value': -1, '1': -1}
-    want_fwd = {'token.base': 1, rep + '.value': 1}
-    for body, want, label in ((rev[0].body, want_rev, 'reverse'), (rev[0].orelse, want_fwd, 'forward')):
-        v = val_of(body)
-        lin = linear(v) if v is not None else None
-        if lin != want:
-            res.bad(F('NUM-LINEAR', f, v or rev[0], 'value = %s' % (src_of(v) if v is not None else '?'),
-                      '%s counter must be %s, is %s' % (label, show(want), show(lin))))
+    def cmp_lin(src):
+        """integer comparison -> (linear form without constant, k) meaning  form > k ; None when not of that kind"""
+        try:
+            e = ast.parse(src, mode='eval').body
+        except SyntaxError:
+            return None
+        if not (isinstance(e, ast.Compare) and len(e.ops) == 1):
+            return None
+        d = linear(ast.BinOp(left=e.left, op=ast.Sub(), right=e.comparators[0]))
+        if d is None:
+            return None
+        k = -d.pop('1', 0)
+        op = type(e.ops[0])
+        if op is ast.Gt:
+            return (d, k, '>')
+        if op is ast.GtE:
+            return (d, k - 1, '>')
+        if op is ast.Lt:
+            return ({a: -v for a, v in d.items()}, -k, '>')
+        if op is ast.LtE:
+            return ({a: -v for a, v in d.items()}, -k - 1, '>')
+        if op is ast.NotEq:
+            return (d, k, '!=')
+        if op is ast.Eq:
+            return (d, k, '==')
+        return None
+
+    def nonempty(q):
+        """does the path assume the repeater stack non-empty?  True / False / None"""
+        for src, pol in q.conds:
+            if src == STACK:
+                return pol
+            c = cmp_lin(src)
+            if c and c[0] == {'len(%s)' % STACK: 1} and c[2] == '>':
+                if c[1] == 0:
+                    return pol
+                if c[1] > 0 and pol:
+                    return True
+                if c[1] < 0 and not pol:
+                    return False
+        return None
+
+    def top(e):
+        return src_of(e) in TOP
+
+    n_paths = 0
+    for q, V, _ in repeater_number_paths(p, f, res, 'NUM-LINEAR'):
+        n_paths += 1
+        ne = nonempty(q)
+        where = ['when ' + q.cond_str()]
+        reads = [x for x in ast.walk(V) if isinstance(x, ast.Subscript) and src_of(x.value) == STACK]
+        if reads and ne is not True:
+            res.bad(F('NUM-LINEAR', f, f.node, 'V = %s' % src_of(V), 'the repeater stack is indexed on a path that does not establish it is non-empty: `$` outside any repeater raises IndexError', details=where))
+            continue
+        if ne is False or not reads:
+            if p.try_const(f, V) == 1 and ne is False:
+                res.ok('no repeater: counter is 1')
+            elif ne is False and isinstance(p.try_const(f, V), int):
+                res.bad(F('NUM-LINEAR', f, f.node, 'V = %s' % src_of(V), 'counter without any repeater is 1', details=where))
+            elif ne is False and linear(V) is not None:
+                res.bad(F('NUM-LINEAR', f, f.node, 'V = %s' % src_of(V), 'counter without any repeater is 1 (the base only applies inside a repeater)', details=where))
+            else:
+                res.undecided('V = %s [%s]' % (src_of(V), q.cond_str()), 'path without stack read is not recognisably the no-repeater case')
+            continue
+        # split V into the own-repeater part and the parent contribution (a product  R.count * state.repeaters[PIX].value)
+        lin = linear(V)
+        if lin is None:
+            res.undecided('V = %s' % src_of(V), 'counter expression is not linear')
+            continue
+        prod = {k: v for k, v in lin.items() if '*' in k}
+        own = {k: v for k, v in lin.items() if '*' not in k}
+        rev = q.cond('token.reverse')
+        par = q.cond('token.parent')
+        R = TOP[0]
+        own_n = {}
+        for k, v in own.items():
+            for t in TOP:
+                k = k.replace(t, R)
+            own_n[k] = own_n.get(k, 0) + v
+        want_rev = {'token.base': 1, R + '.count': 1, R + '.value': -1, '1': -1}
+        want_fwd = {'token.base': 1, R + '.value': 1}
+        if rev is None:
+            if own_n in (want_rev, want_fwd):
+                res.bad(F('NUM-LINEAR', f, f.node, 'V = %s' % show(own_n), 'the counter direction does not depend on token.reverse on this path', details=where))
+            else:
+                res.undecided('V = %s [%s]' % (show(own_n), q.cond_str()), 'path does not test token.reverse')
+            continue
+        want = want_rev if rev else want_fwd
+        label = 'reverse' if rev else 'forward'
+        if own_n != want:
+            res.bad(F('NUM-LINEAR', f, f.node, 'V = %s' % show(own_n), '%s counter must be %s, is %s' % (label, show(want), show(own_n)), details=where))
+            continue
+        # parent contribution
+        differs = None
+        pix_ok = None
+        for src, pol in q.conds:
+            c = cmp_lin(src)
+            if c and c[2] in ('!=', '==') and any(a.startswith('max(') for a in c[0]):
+                differs = pol if c[2] == '!=' else (not pol)
+        if not prod:
+            if par is True and differs is True:
+                res.bad(F('NUM-LINEAR', f, f.node, 'V = %s' % show(lin), 'the contribution of the parent repeater (`$@^`) is missing', details=where))
+            else:
+                res.ok('%s: V = %s' % (label, show(own_n)))
+            continue
+        if len(prod) != 1 or list(prod.values()) != [1]:
+            res.undecided('V = %s' % show(lin), 'parent contribution not recognised')
+            continue
+        term = list(prod)[0]
+        fa = sorted(term.split('*'))
+        idx = [x for x in ast.walk(V) if isinstance(x, ast.Subscript) and src_of(x.value) == STACK and src_of(x) not in TOP]
+        cnt_ok = any(x in (t + '.count' for t in TOP) for x in fa)
+        if not cnt_ok or len(idx) != 1 or (src_of(idx[0]) + '.value') not in fa:
+            res.undecided('V = %s' % show(lin), 'parent contribution must be <own>.count * state.repeaters[<parent index>].value')
+            continue
+        ix = idx[0].slice
+        clamp = None
+        if isinstance(ix, ast.Call) and isinstance(ix.func, ast.Name) and ix.func.id == 'max' and len(ix.args) == 2:
+            for a0, a1 in ((ix.args[0], ix.args[1]), (ix.args[1], ix.args[0])):
+                if p.try_const(f, a0) == 0 and linear(a1) == {'len(%s)' % STACK: 1, '1': -1, 'token.parent': -1}:
+                    clamp = True
+        elif linear(ix) is not None and 'token.parent' in linear(ix):
+            clamp = False
+        if clamp is True:
+            if par is False:
+                res.bad(F('NUM-LINEAR', f, f.node, 'V = %s' % show(lin), 'a parent contribution is added although the token has no `^`', details=where))
+            elif differs is True:
+                res.ok('%s with parent: V = %s' % (label, show(lin)))
+            else:
+                res.bad(F('NUM-LINEAR', f, f.node, 'V = %s' % show(lin), 'the parent contribution is added without checking that the (clamped) parent differs from the own repeater: `$@^` inside a single repeater counts twice', details=where))
+        elif clamp is False:
+            res.bad(F('NUM-LINEAR', f, idx[0], 'state.repeaters[%s]' % src_of(ix),
+                      'the parent repeater index must be clamped: max(0, last_ix - token.parent); without the clamp `$@^^` on a shallow nesting indexes outside the repeater stack (or wraps around to an inner repeater)', details=where))
         else:
-            res.ok('%s: value = %s' % (label, show(lin)))
-    # parent index is clamped at 0
-    pi = defs.get('parent_ix')
-    pis = src_of(inline(p, f, pi)) if pi is not None else None
-    if pis not in ('max(0, len(state.repeaters) - 1 - token.parent)', 'max(len(state.repeaters) - 1 - token.parent, 0)'):
-        res.bad(F('NUM-LINEAR', f, pi or f.node, 'parent_ix = %s' % (src_of(pi) if pi is not None else '?'),
-                  'the parent repeater index must be clamped: max(0, last_ix - token.parent); without the clamp `$@^^` on a shallow nesting indexes outside the repeater stack'))
-    else:
-        res.ok('parent_ix = ' + pis)
-    # tokenizer side: size = number of $ characters, base default 1, count from the digits
+            res.undecided('state.repeaters[%s]' % src_of(ix), 'parent index not recognised')
+    if n_paths < 3:
+        res.undecided('RepeaterNumber', 'fewer than 3 recognised paths (no-repeater, forward, reverse)')
+    # tokenizer side, decided on the symbolic path summaries of repeater_number(): the constructor receives
+    # (characters consumed by the $ run, result of eating '-', the digit run after '@' or 1, number of '^', ...)
+    from .. import sympath
     t = p.func('abbreviation.tokenizer.repeater_number')
-    d = single_defs(p, t)
-    if 'size' in d and linear(d['size']) == {'scanner.pos': 1, 'start': -1}:
-        res.ok('size = scanner.pos - start')
-    else:
-        res.bad(F('NUM-LINEAR', t, d.get('size') or t.node, 'size = %s' % (src_of(d['size']) if 'size' in d else '?'), 'width of a $ run is the number of characters consumed'))
-    bases = [n for n in t.body_nodes() if isinstance(n, ast.Assign) and src_of(n.targets[0]) == 'base']
-    if bases and p.try_const(t, bases[0].value) == 1:
-        res.ok('base defaults to 1')
-    else:
-        res.bad(F('NUM-LINEAR', t, bases[0] if bases else t.node, 'base default', 'numbering starts at 1 unless @M is given'))
-    ctor = [c for c in t.body_nodes() if isinstance(c, ast.Call) and src_of(c.func) == 'tokens.RepeaterNumber']
-    if len(ctor) == 1 and [src_of(a) for a in ctor[0].args[:4]] == ['size', 'reverse', 'base', 'parent']:
-        res.ok('RepeaterNumber(size, reverse, base, parent, ..)')
-    else:
-        res.bad(F('NUM-LINEAR', t, ctor[0] if ctor else t.node, src_of(ctor[0]) if ctor else 'ctor', 'token fields must be passed as (size, reverse, base, parent)'))
-    init = p.cls('abbreviation.tokenizer.tokens.RepeaterNumber').methods['__init__']
-    if init.params[1:5] == ['size', 'reverse', 'base', 'parent'] and all('self.%s = %s' % (x, x) in src_of(init.node) for x in ('size', 'reverse', 'base', 'parent')):
-        res.ok('RepeaterNumber.__init__ stores (size, reverse, base, parent)')
-    else:
-        res.bad(F('NUM-LINEAR', init, init.node, 'RepeaterNumber.__init__', 'constructor parameters and stored fields disagree'))
-    # convert_statement: value = i (0-based copy index), count = repeat.count
-    cs = p.func('abbreviation.convert.convert_statement')
-    s = src_of(cs.node)
-    for want in ('repeat.value = i', 'i = 0', 'i += 1', 'while i < repeat.count'):
-        if want not in s:
-            res.bad(F('NUM-LINEAR', cs, cs.node, want, 'copy loop: the copy index i runs 0..count-1 and is published as repeat.value'))
+    try:
+        tpaths = sympath.feasible(sympath.summaries(p, t, inline=True))
+    except sympath.Unsupported as e:
+        tpaths = []
+        res.undecided('repeater_number', str(e))
+    roles_seen = None
+    n_ctor = 0
+    for q in tpaths:
+        ctor = [(sym, n) for sym, n, _ in q.events if isinstance(n, ast.Call) and src_of(n.func).endswith('RepeaterNumber')]
+        if not ctor:
+            continue
+        if len(ctor) != 1 or len(ctor[0][1].args) < 4:
+            res.undecided('repeater_number [%s]' % q.cond_str(), 'one RepeaterNumber(size, reverse, base, parent, ..) expected')
+            continue
+        n_ctor += 1
+        c = ctor[0][1]
+        ev = list(q.events)
+        first = next((n for _, n, _ in ev if isinstance(n, ast.Call)), None)
+        dollar = first is not None and src_of(first) in ('scanner.eat_while(Chars.Dollar)',)
+        # size
+        a0 = c.args[0]
+        sz = None
+        if isinstance(a0, ast.Name) and a0.id in q.snaps:
+            nm, val, at = q.snaps[a0.id]
+            lin = linear(val)
+            starts = [k for k in (lin or {}) if k in q.snaps and src_of(q.snaps[k][1]) == 'scanner.pos' and q.snaps[k][2] == 0]
+            if lin is not None and dollar and at == 1 and len(starts) == 1 and lin == {'scanner.pos': 1, starts[0]: -1}:
+                sz = True
+            elif lin is not None and dollar and at == 1 and len(starts) == 1 and lin.get('scanner.pos') == 1 and lin.get(starts[0]) == -1:
+                sz = 'off'
+        if sz is True:
+            res.ok('size = characters consumed by the $ run')
+        elif sz == 'off':
+            res.bad(F('NUM-LINEAR', t, c, 'size = %s' % src_of(q.snaps[a0.id][1]), 'width of a $ run is exactly the number of characters consumed'))
         else:
-            res.ok('convert_statement: ' + want)
+            res.undecided('size argument %s' % src_of(a0), 'not recognisably the length of the $ run')
+        # base
+        a2 = c.args[2]
+        cv = p.try_const(t, a2)
+        if isinstance(cv, int) and not isinstance(cv, bool):
+            if cv == 1:
+                res.ok('base defaults to 1')
+            else:
+                res.bad(F('NUM-LINEAR', t, c, 'base = %r [%s]' % (cv, q.cond_str()), 'numbering starts at 1 unless @M is given'))
+        elif isinstance(a2, ast.Call) and isinstance(a2.func, ast.Name) and a2.func.id == 'int':
+            res.ok('base = int(<digit run>)  (run checked by EXC-NUMCONV)')
+        else:
+            res.undecided('base argument %s' % src_of(a2), 'neither 1 nor the digit run')
+        # reverse
+        a1 = c.args[1]
+        if isinstance(a1, ast.Constant) and a1.value is False:
+            res.ok('reverse = False without @-')
+        elif isinstance(a1, ast.Name) and any(sym == a1.id and src_of(n) == 'scanner.eat(Chars.Dash)' for sym, n, _ in ev):
+            res.ok("reverse = whether '-' was eaten")
+        elif isinstance(a1, ast.Constant) and a1.value is True:
+            res.bad(F('NUM-LINEAR', t, c, 'reverse = True [%s]' % q.cond_str(), 'numbering is reversed although no `@-` was read'))
+        else:
+            res.undecided('reverse argument %s' % src_of(a1), "not the result of eating '-'")
+    if tpaths and n_ctor == 0:
+        res.undecided('repeater_number', 'no path builds a RepeaterNumber token')
+    from ..pattern import find_stmt
+    tn = t.node
+    if find_stmt('while $s.eat(Chars.Climb):\n    $p += 1', tn):
+        res.ok('parent = number of ^ eaten')
+    else:
+        res.undecided('parent count loop', 'while scanner.eat(Chars.Climb): parent += 1')
+    # constructor: positional parameter i is stored in the field RepeaterNumber() reads for role i
+    init = p.cls('abbreviation.tokenizer.tokens.RepeaterNumber').methods['__init__']
+    stores = {}
+    for n in init.body_nodes():
+        if isinstance(n, ast.Assign) and len(n.targets) == 1 and isinstance(n.targets[0], ast.Attribute) and src_of(n.targets[0].value) == 'self' and isinstance(n.value, ast.Name):
+            stores[n.value.id] = n.targets[0].attr
+    roles = ['size', 'reverse', 'base', 'parent']
+    got = [stores.get(x) for x in init.params[1:5]]
+    if got == roles:
+        res.ok('RepeaterNumber.__init__: positional arguments land in the fields (size, reverse, base, parent)')
+    elif None in got:
+        res.undecided('RepeaterNumber.__init__', 'fields are not plain copies of the parameters')
+    else:
+        res.bad(F('NUM-LINEAR', init, init.node, 'RepeaterNumber.__init__ stores %s' % got, 'the tokenizer passes (size, reverse, base, parent) positionally; the fields read by the stringifier must receive them in this order'))
+    # convert_statement: the copy index starts at 0 and is what the running repeater publishes as .value
+    cs = p.func('abbreviation.convert.convert_statement')
+    whiles = [n for n in cs.body_nodes() if isinstance(n, ast.While) and isinstance(n.test, ast.Compare) and isinstance(n.test.left, ast.Name)
+              and len(n.test.ops) == 1 and isinstance(n.test.ops[0], ast.Lt) and src_of(n.test.comparators[0]).endswith('.count')]
+    if len(whiles) != 1:
+        res.undecided('copy loop of convert_statement', 'while <i> < <repeater>.count')
+    else:
+        w = whiles[0]
+        ctr = w.test.left.id
+        pm = p.parents(cs)
+        blk = pm.get(w)
+        body = next((getattr(blk, fld) for fld in ('body', 'orelse') if isinstance(getattr(blk, fld, None), list) and w in getattr(blk, fld)), None)
+        init_ = [st for st in (body[:body.index(w)] if body else []) if isinstance(st, ast.Assign) and src_of(st.targets[0]) == ctr]
+        iv = p.try_const(cs, init_[-1].value) if init_ else None
+        if iv == 0:
+            res.ok('copy index starts at 0')
+        elif isinstance(iv, int):
+            res.bad(F('NUM-LINEAR', cs, init_[-1], src_of(init_[-1]), 'the copy index must start at 0 (RepeaterNumber adds the base)'))
+        else:
+            res.undecided('initial value of the copy index', 'constant 0 expected')
+        pub = [st for st in ast.walk(w) if isinstance(st, ast.Assign) and isinstance(st.targets[0], ast.Attribute) and st.targets[0].attr == 'value'
+               and src_of(st.targets[0].value) == src_of(w.test.comparators[0])[:-len('.count')]]
+        if len(pub) == 1 and linear(pub[0].value) == {ctr: 1}:
+            res.ok('the running repeater publishes the copy index: %s' % src_of(pub[0]))
+        elif len(pub) == 1 and linear(pub[0].value) is not None and linear(pub[0].value).get(ctr) == 1:
+            res.bad(F('NUM-LINEAR', cs, pub[0], src_of(pub[0]), 'the published copy number must be the 0-based copy index itself'))
+        else:
+            res.undecided('publication of the copy index', '<repeater>.value = <i> inside the loop')
     res.require_floor(12)
 
 
